@@ -62,10 +62,22 @@ func init() {
 
 type c18Lis struct {
 	Kind string `json:"kind"` // http | tcp | sni | grpc
+	// Addr is the listen address, exactly what clients dial: "ip:port", "[ip6]:port", "name:port", or
+	// ":port" (wildcard; clients dial it through c18WildcardVia).
 	Addr string `json:"addr"`
-	Up   string `json:"upstream,omitempty"` // tcp: the one upstream of the listener's route
+	Up   string `json:"upstream,omitempty"` // tcp: the one upstream of the route of the listener's port
 
-	srv *c18Server
+	host string
+	port int
+	srv  *c18Server
+}
+
+// dialKey is the address a client of the listener connects to.
+func (l *c18Lis) dialKey() string {
+	if l.host == "" {
+		return net.JoinHostPort(c18WildcardVia, fmt.Sprint(l.port))
+	}
+	return l.Addr
 }
 
 type c18Item struct {
@@ -127,6 +139,45 @@ var c18Waits = []time.Duration{time.Second, 50 * time.Millisecond, 5 * time.Seco
 var c18Ats = []time.Duration{200 * time.Millisecond, 0, time.Second, 7 * time.Second}
 var c18Kinds = []string{"http", "tcp", "sni", "grpc"}
 
+// c18Hosts are the host parts of listener addresses: IP literals of both families (more than one per
+// family, so that two listeners can differ in nothing but the IP, or in nothing but the family), a name
+// (the simulated network keys the listener by name; fabio sees the address the name resolves to) and the
+// wildcard (":port"). Value 0 is what every listener used before addresses were generated.
+var c18Hosts = []string{"10.1.0.5", "10.1.0.6", "fd00:1::5", "fd00:1::6", "192.168.7.5", "fabio.sim", ""}
+
+// c18WildcardVia is the address through which clients reach a wildcard listener.
+const c18WildcardVia = "10.1.0.9"
+
+// c18ListenerAddr draws the address of listener number i (0-based): a host from c18Hosts and either a
+// port of its own (7001+i) or, with probability 1/2, the port of an earlier listener. What an operating
+// system would refuse to bind is never generated: the same host and port twice; a wildcard listener
+// next to any other listener of that port (Go's ":port" is a dual-stack wildcard). A draw that is
+// not bindable falls back to the first host that is free on the port, then to the listener's own port.
+func c18ListenerAddr(g *simcore.Tape, earlier []*c18Lis, i int) (host string, port int) {
+	host = simcore.Pick(g, c18Hosts)
+	port = 7001 + i
+	if i > 0 && g.Chance(50) {
+		port = earlier[g.Intn(i)].port
+	}
+	free := func(h string) bool {
+		for _, l := range earlier {
+			if l.port == port && (l.host == h || l.host == "" || h == "") {
+				return false
+			}
+		}
+		return true
+	}
+	if free(host) {
+		return host, port
+	}
+	for _, h := range c18Hosts {
+		if h != "" && free(h) {
+			return h, port
+		}
+	}
+	return host, 7001 + i // no earlier listener has this port
+}
+
 func c18Gen(g *simcore.Tape, thorough bool) *c18Scenario {
 	sc := &c18Scenario{}
 	waits, ats := c18Waits, c18Ats
@@ -140,9 +191,13 @@ func c18Gen(g *simcore.Tape, thorough bool) *c18Scenario {
 	sc.Stick = simcore.Pick(g, []int{1, 3, 8})
 	nl := g.Range(1, 5)
 	for i := 0; i < nl; i++ {
-		l := &c18Lis{Kind: simcore.Pick(g, c18Kinds), Addr: fmt.Sprintf("10.1.0.5:%d", 7001+i)}
+		l := &c18Lis{Kind: simcore.Pick(g, c18Kinds)}
+		l.host, l.port = c18ListenerAddr(g, sc.Listeners, i)
+		l.Addr = net.JoinHostPort(l.host, fmt.Sprint(l.port))
 		if l.Kind == "tcp" {
-			l.Up = fmt.Sprintf("up%d.sim:9000", i)
+			// tcp.Proxy finds its route by the port of the listener: tcp listeners that share a port
+			// share the route and therefore the upstream (tunnels are told apart by their marker)
+			l.Up = fmt.Sprintf("up-p%d.sim:9000", l.port)
 		}
 		sc.Listeners = append(sc.Listeners, l)
 	}
@@ -162,6 +217,9 @@ func c18Gen(g *simcore.Tape, thorough bool) *c18Scenario {
 			it.Kind = simcore.Pick(g, []string{"grpc-unary", "grpc-stream"})
 		}
 		it.Client = fmt.Sprintf("192.0.2.%d:5000", 10+j)
+		if strings.Contains(l.host, ":") {
+			it.Client = fmt.Sprintf("[2001:db8::%x]:5000", 16+j)
+		}
 		tunnel := it.Kind == "tcp" || it.Kind == "sni"
 		if it.Kind == "sni" {
 			it.Name = it.ID + ".example.com"
@@ -283,13 +341,19 @@ type c18Server struct {
 	inner Server
 
 	// guarded by e.mu
+	serving    bool
 	sdEntered  bool
 	sdReturned bool
 	sdAt       time.Time
 }
 
-func (s *c18Server) Close() error               { return s.inner.Close() }
-func (s *c18Server) Serve(l net.Listener) error { return s.inner.Serve(l) }
+func (s *c18Server) Close() error { return s.inner.Close() }
+func (s *c18Server) Serve(l net.Listener) error {
+	s.e.mu.Lock()
+	s.serving = true
+	s.e.mu.Unlock()
+	return s.inner.Serve(l)
+}
 func (s *c18Server) Shutdown(ctx context.Context) error {
 	s.e.mu.Lock()
 	s.sdEntered = true
@@ -870,10 +934,11 @@ func runC18(r *simcore.Run) {
 
 	// routes of the tunnels
 	var table strings.Builder
-	for i, l := range sc.Listeners {
-		if l.Kind == "tcp" {
-			_, port, _ := net.SplitHostPort(l.Addr)
-			fmt.Fprintf(&table, "route add svc-l%d :%s tcp://%s\n", i, port, l.Up)
+	tcpPorts := map[int]bool{} // looked up only, never ranged over
+	for _, l := range sc.Listeners {
+		if l.Kind == "tcp" && !tcpPorts[l.port] {
+			tcpPorts[l.port] = true
+			fmt.Fprintf(&table, "route add svc-p%d :%d tcp://%s\n", l.port, l.port, l.Up)
 		}
 	}
 	for _, it := range sc.Items {
@@ -894,7 +959,9 @@ func runC18(r *simcore.Run) {
 		e.d.Sim.Activate("proxy:Shutdown", "proxy/tcp:*Server.", "-proxy/tcp:*Server.closeConns")
 	}
 
-	// servers, started through the real proxy.serve
+	// servers, started through the real proxy.serve, one after the other (listener i is registered and
+	// accepting before listener i+1 starts: the order of registration is the order of the scenario)
+	upstreams := map[string]bool{} // looked up only
 	for i, l := range sc.Listeners {
 		var inner Server
 		nw := e.net
@@ -904,7 +971,10 @@ func runC18(r *simcore.Run) {
 			inner = &http.Server{Handler: e.httpHandler()}
 		case "tcp":
 			inner = &tcp.Server{Handler: &tcp.Proxy{DialTimeout: 20 * time.Second, Lookup: lookup}}
-			e.upstream(l.Up, nil)
+			if !upstreams[l.Up] {
+				upstreams[l.Up] = true
+				e.upstream(l.Up, nil)
+			}
 		case "sni":
 			inner = &tcp.Server{Handler: &tcp.SNIProxy{DialTimeout: 20 * time.Second, Lookup: lookup}}
 		case "grpc":
@@ -924,21 +994,26 @@ func runC18(r *simcore.Run) {
 		} else {
 			go serve(ln, srv)
 		}
+		// every server is serving before the next one starts and before the clock starts (start-up
+		// races are not the subject)
+		e.drainTasks()
+		e.mu.Lock()
+		serving := srv.serving
+		e.mu.Unlock()
+		if !serving {
+			r.Trouble("listener %d (%s %s) was started but its server is not serving", i, l.Kind, l.Addr)
+			return
+		}
+		// what fabio sees of the listener
+		r.Tracef("listener %d %s %s addr=%s", i, l.Kind, l.Addr, ln.Addr())
 	}
 	for _, it := range sc.Items {
 		if it.Kind == "sni" {
 			e.upstream(it.Up, it)
 		}
 	}
-	// every server is registered and accepting before the clock starts (start-up races are not the subject)
 	e.drainTasks()
-	mu.Lock()
-	registered := len(servers)
-	mu.Unlock()
-	if registered != len(sc.Listeners) {
-		r.Trouble("%d listeners started, %d servers registered", len(sc.Listeners), registered)
-		return
-	}
+	e.probeAddresses()
 
 	// clients
 	for _, it := range sc.Items {
@@ -960,7 +1035,7 @@ func runC18(r *simcore.Run) {
 					acts = append(acts, c18Act{Kind: "close"})
 				}
 			}
-			e.addPeer(it, l.Addr, acts, 0)
+			e.addPeer(it, l.dialKey(), acts, 0)
 		case "tcp", "sni":
 			greet := it.marker
 			if it.Kind == "sni" {
@@ -982,9 +1057,9 @@ func runC18(r *simcore.Run) {
 			if !it.Forever {
 				acts = append(acts, c18Act{Kind: "close"})
 			}
-			e.addPeer(it, l.Addr, acts, want)
+			e.addPeer(it, l.dialKey(), acts, want)
 		default:
-			e.addPeer(it, l.Addr, []c18Act{{Kind: "call", At: at(it.Start)}}, 0)
+			e.addPeer(it, l.dialKey(), []c18Act{{Kind: "call", At: at(it.Start)}}, 0)
 		}
 	}
 	e.d.Hint(e.base.Add(sc.At))
